@@ -26,15 +26,15 @@ BUDGET_S = {'quick': 150, 'thorough': 1500}
 
 SPECIAL_TOKS = ["it's", 'say "hi"', 'a\\b', 'tab\there', 'ünï', '東京', "'", '"', '\\', '//', '`', '{', '#x', '->', ' sp ']
 SPECIAL_PATS = [(' lead', [' lead']), ('a/b', ['a/b']), (r'\d+', ['12']), ('[\'"]', ["'", '"']), (r'x\/y', ['x/y']), ('(?i)ab', ['AB', 'ab']), (r'\w+\s', ['ab ']),
-                ('[^/]+/', ['q/']), ('"q"', ['"q"']), (r'\\', ['\\']), ('[a-c]+?', ['a']),
+                ('[^/]+/', ['q/']), ('"q"', ['"q"']), ('a/"b', ['a/"b']), ('[/"\']x', ['/x', '"x', "'x"]), ('', ['']), ("y/'", ["y/'"]), (r'\\', ['\\']), ('[a-c]+?', ['a']),
                 # multi-line (verbose) patterns: the first line follows the opening slash, the others are indented
                 ('(?x)\n    [a-c]      # first\n    [a-c0-9]*  # rest\n    ', ['a1', 'abc']), ('(?x)\n  a+\n      b*\n', ['ab', 'a']), ('(?x) a\n   b', ['ab'])]
-CONSTS = ['7', 'k', "'s'", '2.5', 'a b', 'x{}y', "it's", 'None', 'True', 'two\nlines', 'a b\n  c d\ne']
+CONSTS = ['7', 'k', "'s'", '2.5', 'a b', 'x{}y', "it's", 'None', 'True', 'two\nlines', 'a b\n  c d\ne', "' x '", '\n  x\n   y\n']
 ALERTS = ['msg', 'bad thing here', 'x', 'two\nlines']
 DIRECTIVES = [
     ('whitespace', "/[ \\t]+/"), ('whitespace', 'None'), ('whitespace', "/\\s+/"), ('nameguard', 'False'), ('nameguard', 'True'), ('ignorecase', 'True'),
     ('namechars', "'-'"), ('namechars', "'$_'"), ('comments', "/\\(\\*.*?\\*\\)/"), ('comments', '?"/\\*.*?\\*/"'), ('eol_comments', "/#[^\\n]*/"),
-    ('eol_comments', '?"//[^\\n]*"'), ('parseinfo', 'True'), ('left_recursion', 'False'), ('grammar', 'Foo'), ('memoization', 'False'),
+    ('eol_comments', '?"//[^\\n]*"'), ('eol_comments', '?\'#/"[^\\n]*\''), ('comments', '?\'/"[a-z]*"/\''), ('parseinfo', 'True'), ('left_recursion', 'False'), ('grammar', 'Foo'), ('memoization', 'False'),
 ]
 
 
@@ -162,7 +162,7 @@ def decorate(rnd, rules):
     for d in rd:
         r = rnd.random()
         if r < 0.2:
-            d['params'] = tuple(rnd.choice([('Tp',), ('Tp', 'x'), (7,), ('a b',), ('Tp::Base',), ("it's",)]))
+            d['params'] = tuple(rnd.choice([('Tp',), ('Tp', 'x'), (7,), ('a b',), ('Tp::Base',), ("it's",), ('True',), ('1',), ('2d',), ('None', 'x'), (True,), (2.5,), ('x', '007')]))
             if any(not (isinstance(p, str) and p.isidentifier()) for p in d['params']):
                 sensitive[0] = True
             if rnd.random() < 0.4:
